@@ -204,9 +204,18 @@ func invalidValueEncoder(e *encodeState, _ ugo.Object, _ encOpts) {
 func noopEncoder(_ *encodeState, _ ugo.Object, _ encOpts) {}
 
 func optionsEncoder(e *encodeState, v ugo.Object, opts encOpts) {
+	if e.ptrLevel++; e.ptrLevel > startDetectingCyclesAfter {
+		// Start checking if we've run into a pointer cycle.
+		if _, ok := e.ptrSeen[v]; ok {
+			e.error(&UnsupportedValueError{v, fmt.Sprintf("encountered a cycle via %s", v.TypeName())})
+		}
+		e.ptrSeen[v] = struct{}{}
+		defer delete(e.ptrSeen, v)
+	}
 	opts.quoted = v.(*EncoderOptions).Quote
 	opts.escapeHTML = v.(*EncoderOptions).EscapeHTML
 	e.encode(v.(*EncoderOptions).Value, opts)
+	e.ptrLevel--
 }
 
 func boolEncoder(e *encodeState, v ugo.Object, opts encOpts) {
